@@ -192,6 +192,60 @@ func c11Deterministic(w *World, r *Report, sites []*cachingSite) {
 		if len(loops) == 0 {
 			r.Ob(ri, w.FnName(fn)+"|no-map-iteration", fn.Pos(), true, "")
 		}
+		// encoders that are explicitly order-unstable
+		for _, c := range callsIn(fn) {
+			if n := callName(c.Common()); strings.Contains(n, "UnorderedMap") || strings.Contains(n, "Unordered") {
+				r.Ob(ri, w.FnName(fn)+"|unordered-encoding", c.Pos(), false, "the key is derived with "+n+": map entries are then encoded in iteration order")
+			}
+		}
+		// map lookups must use the key as stored: a transformed key can miss the entry and drop its value from the digest
+		nl := 0
+		eachInstr(fn, func(in ssa.Instruction) {
+			lk, isL := in.(*ssa.Lookup)
+			if !isL || lk.CommaOk {
+				return
+			}
+			if _, isMap := lk.X.Type().Underlying().(*types.Map); !isMap {
+				return
+			}
+			if _, isC := lk.Index.(*ssa.Const); isC {
+				return
+			}
+			// only maps whose keys are enumerated in this function (the map is being digested entry by entry)
+			enumerated := false
+			mroot, mpath := accessPath(lk.X)
+			same := func(v ssa.Value) bool {
+				r2, p2 := accessPath(v)
+				return r2 == mroot && strings.Join(p2, ".") == strings.Join(mpath, ".")
+			}
+			eachInstr(fn, func(in2 ssa.Instruction) {
+				if rg, isR := in2.(*ssa.Range); isR && same(rg.X) {
+					enumerated = true
+				}
+				if c, isCall := in2.(*ssa.Call); isCall && strings.HasPrefix(callName(c.Common()), "maps.Keys") && len(c.Call.Args) == 1 && same(c.Call.Args[0]) {
+					enumerated = true
+				}
+			})
+			if !enumerated {
+				return
+			}
+			nl++
+			bad := ""
+			dependsOn(w, lk.Index, func(x ssa.Value) bool {
+				if c, isCall := x.(*ssa.Call); isCall {
+					n := callName(c.Common())
+					switch {
+					case strings.HasPrefix(n, "maps.Keys"), strings.HasPrefix(n, "slices.Sorted"), strings.HasPrefix(n, "slices.Collect"), strings.HasPrefix(n, "builtin."):
+					case selectOperands(c) != nil:
+					default:
+						bad = n
+					}
+				}
+				return false
+			})
+			_, mp := accessPath(lk.X)
+			r.Ob(ri, fmt.Sprintf("%s|lookup-by-stored-key|%s#%d", w.FnName(fn), strings.Join(mp, "."), nl), lk.Pos(), bad == "", "the map is indexed with a key transformed by "+bad+": entries stored under another spelling are missed and their values never reach the digest")
+		})
 	}
 }
 
@@ -383,18 +437,51 @@ func c11Overrides(w *World, r *Report, sites []*cachingSite) {
 							}
 						}
 					}
-				case hitFns[root]:
-					// a method of the mechanism called on the hit path (or before the lookup)
-					hitRead = true
-				case missOnly[root]:
+				case hitFns[root] || missOnly[root]:
 					if isTTLUse(w, u) {
 						continue
 					}
-					missRead = true
-					missPos = u.Pos()
+					if hitFns[root] {
+						// a method of the mechanism called on the hit path (or before the lookup)
+						hitRead = true
+					}
+					if missOnly[root] {
+						missRead = true
+						missPos = u.Pos()
+					}
 				}
 			}
 			ok := inKey || !missRead || hitRead
+			if ok && !inKey && missRead && hitRead {
+				// the hit-path application must be effective: the error of the call that consumes the
+				// setting on the hit path is tested or returned
+				eff := false
+				for _, c := range callsIn(G) {
+					cc, isCall := c.(*ssa.Call)
+					if !isCall || !hit[c.Block()] || afterRemote(c) || !lastResultIsError(c.Common().Signature()) {
+						continue
+					}
+					consumes := false
+					if callee := c.Common().StaticCallee(); callee != nil && hitFns[callee] {
+						consumes = true
+					}
+					for _, u := range fieldReadFns(f) {
+						if u.Parent() == G {
+							for _, in := range forwardSlice(u) {
+								if in == ssa.Instruction(cc) {
+									consumes = true
+								}
+							}
+						}
+					}
+					if consumes && errorResultUsed(cc) {
+						eff = true
+					}
+				}
+				if !eff {
+					ok = false
+				}
+			}
 			pos := G.Pos()
 			if missPos.IsValid() {
 				pos = missPos
@@ -402,6 +489,33 @@ func c11Overrides(w *World, r *Report, sites []*cachingSite) {
 			r.Ob(ri, w.FnName(G)+"|override|"+n, pos, ok, "the overridable setting '"+n+"' influences the result on a cache miss only: it is neither part of the cache key nor applied after a hit, so a result validated under one rule's policy is served to another rule")
 		}
 	}
+}
+
+// errorResultUsed: the error result of the call is tested against nil or returned.
+func errorResultUsed(c *ssa.Call) bool {
+	var errV ssa.Value = c
+	if c.Common().Signature().Results().Len() > 1 {
+		errV = nil
+		if refs := c.Referrers(); refs != nil {
+			for _, rf := range *refs {
+				if ex, ok := rf.(*ssa.Extract); ok && ex.Index == c.Common().Signature().Results().Len()-1 {
+					errV = ex
+				}
+			}
+		}
+	}
+	if errV == nil {
+		return false
+	}
+	for _, in := range forwardSlice(errV) {
+		switch x := in.(type) {
+		case *ssa.If, *ssa.Return:
+			return true
+		case *ssa.BinOp:
+			_ = x
+		}
+	}
+	return false
 }
 
 // forwardSlice: instructions (transitively) using v within its function.
